@@ -5,6 +5,11 @@ ROOT = os.path.dirname(os.path.dirname(os.path.abspath(__file__)))
 
 # id -> (technique, level text, level note, design ref)
 CLAIMED = {
+ "C16": ("installation and dominance rules for CheckWhen (unconditional in Browser.baseConstraints, verdict returned unchanged, container-post veto makes selekt return nil), extraction of the operator-literal → predicate table from the SSA of xpathImpl.resolveOperator and comparison with the mathematical table and with the operator set derived from the xpath lexer's AST, nil-guard dominance for unset operands, error-flow rule for expression syntax errors, return-shape rule for Where",
+         "Decides that `when` is always evaluated before data is touched and that its verdict is what hides the node; that each of =, !=, <, <=, >, >= is dispatched to the right predicate on c = leaf.Compare(literal) with the right orientation and that exactly the lexer's operators are handled; that an unset operand compares false instead of crashing; that malformed expressions are reported; and that where hides only entries of the addressed list and never stops the iteration. With C17 (Compare is a correct total order) this covers the comparison semantics structurally; XPath path resolution, which rows are kept and notification delivery are not decided.",
+         "The table extraction depends on resolveOperator dispatching through string comparisons on the operator field; another shape makes the check fail as undecided rather than pass.",
+         "DESIGN.md §2 C16"),
+
  "C07": ("error-flow rule over the parameter parsers and BuildConstraints, parser-can-fail return-shape rule, key→constraint data-flow rule, receiver-state rule (a Check* method that stores to its receiver needs a pointer receiver and by-pointer registration), entry-guard rule for IsNavigation(), interface near-miss rule, and call-graph non-reachability of edits from constraint checks; the constraint types are discovered from the AddConstraint call sites",
          "Decides that an invalid parameter value cannot be silently ignored (its error reaches the API's return and every parser is able to fail), that every recognised key installs a constraint built from its value, that constraints which count keep their count, that read filters exempt navigation, and that evaluating a filter cannot write. These are necessary conditions of 'exactly the defined projection'; the projection itself (depth counting, field-path matching, row windows, intersections of parameters) is a statement about runtime data and is not decided.",
          "The set of constraint types is discovered (AddConstraint sites) and must not shrink below the hand-confirmed count; four types are exempt from the navigation guard and one dead near-miss method is exempt, each with a reason.",
